@@ -44,6 +44,12 @@ def IFNA(value, value_if_na):
 
 @dispatcher.register_for('NOT')
 def NOT(boolean):
+    if isinstance(boolean, (list, tuple)):
+        # like AND and OR, NOT looks at the value inside an array (a one-cell range,
+        # {0}), not at whether the array is empty
+        items = utils.flatten(boolean)
+        if len(items) == 1:
+            boolean = items[0]
     if isinstance(boolean, error.XLError):
         return boolean
     return not boolean
